@@ -20,7 +20,7 @@ RULE = ("(read-only) for families x configuration classes (tags x rated power x 
 ASSUMPTIONS = ["frames are classified by an independent decoder inside the simulated inverter",
                "'modbus-N' ids are documented raw-register access and are not 'unknown' ids"]
 MUST = ["concurrent_writer_reader", "readonly_calls", "readonly_frames_seen", "after_valid_setters", "invalid_export_limit", "invalid_dod", "invalid_eco_power",
-        "invalid_eco_soc", "raw_ids_beyond_16_bits", "unknown_setting_ids", "sensor_id_as_setting_id", "monitoring_over_refused_connections", "discover_readonly", "valueerror_seen"]
+        "invalid_eco_soc", "setting_refused_on_read_then_written", "raw_ids_beyond_16_bits", "unknown_setting_ids", "sensor_id_as_setting_id", "monitoring_over_refused_connections", "discover_readonly", "valueerror_seen"]
 EXHAUSTIVE = {"quick": False, "thorough": False}
 
 
@@ -200,6 +200,25 @@ def invalid_case(fam, port, variant, seed, part, wide):
                 continue
             await probe(f"write_setting({sid!r}, 1)", "unknown_setting_ids", lambda: inv.write_setting(sid, 1), True)
             await probe(f"read_setting({sid!r})", "unknown_setting_ids", lambda: inv.read_setting(sid), True)
+        # a setting whose register the inverter refuses to READ (ILLEGAL DATA ADDRESS) becomes an unknown id: writing it afterwards
+        # must raise ValueError and transmit nothing
+        if fam != "ES":
+            for st_ in [x for x in inv.settings() if x.id_ in ("grid_export_limit", "battery_discharge_depth", "work_mode", "shadow_scan")][:3]:
+                sim.refused.append((st_.offset, st_.offset + max(1, (st_.size_ + 1) // 2) - 1))
+                try:
+                    await inv.read_setting(st_.id_)
+                    became_unknown = False
+                except ValueError:
+                    became_unknown = True
+                except Exception:       # noqa
+                    became_unknown = False
+                sim.refused.pop()
+                if became_unknown:
+                    sid = st_.id_
+                    await probe(f"write_setting({sid!r}, 1) after its read was refused", "setting_refused_on_read_then_written", lambda: inv.write_setting(sid, 1), True)
+                    if sid == "grid_export_limit":
+                        await probe("set_grid_export_limit(50) after its read was refused", "setting_refused_on_read_then_written",
+                                    lambda: inv.set_grid_export_limit(50), True)
         # ids of runtime sensors are not setting ids
         known = {s.id_ for s in inv.settings()}
         sens = sorted({s.id_ for s in inv.sensors()} - known - ({"time"} if fam == "ES" else set()))
